@@ -131,7 +131,28 @@ def r2(ctx):
             if match(p, r) is not None:
                 ctx.ok(R, '%s = %s' % (key, desc), where(s.body))
                 return r
-        ctx.violation(R, key, 'expected %s, got %s' % (desc, sh(r, 500)), where(s.body))
+        # not literally one of the spellings: compare as decision trees (negated tests, swapped branches, early returns)
+        from ..treeq import TreeEq, strip_calls, show_env
+
+        def canon(e):
+            def rec(x):
+                if isinstance(x, tuple) and x:
+                    if x[0] == 'constdef':
+                        return ('constdef', x[1])
+                    return tuple(rec(y) if isinstance(y, tuple) else y for y in x)
+                return x
+            return rec(strip_calls(norm(e)))
+        te = TreeEq(f, canon=canon)
+        verdicts = [te.equal(p, r) for p in pats if ANY not in [y for y in walk(p) if not isinstance(y, tuple)] or True]
+        if any(v[0] is True for v in verdicts):
+            ctx.ok(R, '%s = %s (equivalent decision tree)' % (key, desc), where(s.body))
+            return r
+        bad = [v for v in verdicts if v[0] is False]
+        if bad and len(bad) == len(verdicts):
+            env, la, lb = bad[0][1]
+            ctx.violation(R, key, 'expected %s, got %s (differs e.g. when %s: %s)' % (desc, sh(r, 400), show_env(env, sh) or 'always', sh(lb, 120)), where(s.body))
+        else:
+            ctx.inconclusive(R, '%s: shape not recognised: %s' % (key, sh(r, 300)))
         return r
 
     def one(name, idx):
